@@ -5,7 +5,10 @@ R upper triangular, A = Q R; real_expand / real_contract by their C02 contracts)
   shapes        Q is m x min(m,n), R is min(m,n) x n on both branches;
   R.triangular  from R_real upper triangular alone: R_quat[i,j] = 0 for i > j and the diagonal is real
                 (the cells read back from block (i,j) all lie strictly below the real diagonal);
-  slices        the thin / wide extraction keeps the leading columns / rows.
+  slices        the thin / wide extraction keeps the leading columns / rows;
+  real factors  (m >= n, square included) what is handed to real_contract is LAPACK's thin pair with column k of Q and row k of R flipped together,
+                the sign chosen so that the real R has a non-negative diagonal (a zero pivot keeps its column up to sign), and the dropped rows of
+                R are zero: every term of Q^T Q and of Q R is unchanged, and the premise of the uniqueness lemma (A5) holds on every shape.
 Orthonormality of Q and A = Q R additionally need the quaternion block structure of the real
 Householder factors, which LAPACK's contract does not give (assumption A5, valid for full column rank):
 those clauses are decided by the bounded stand-in, and where the code relies on more than the contract
@@ -53,6 +56,7 @@ def contracts_with_rb(rep):
         if RB is None:
             raise ix.OutOfReach("no read-back table")
         snap = R._snapshot()
+        cur().ghost.setdefault("real_contract_args", []).append((R, snap, m, n))
         return ix.IArr.from_fn([m, n], lambda vi: c02.rb_apply(RB, lambda x, y: snap((4 * vi[0] + x, 4 * vi[1] + y))), quat=True)
     def k_matmat(I, args, kwargs):
         """quat_matmat by contract at index level: an abstract product of the right shape (entries uninterpreted)."""
@@ -112,11 +116,31 @@ def deductive(rep: Report, tier):
                 e = R.at(i, j)
                 out.append(("R_upper_triangular", sor(snot(i > j), e == ix.QScal(Fraction(0)))))
                 out.append(("R_real_diagonal", sor(snot(i == j), sand(e.c[1] == 0, e.c[2] == 0, e.c[3] == 0))))
+                # the real factors handed to real_contract: LAPACK's thin factors with column k of Q and row k of R flipped TOGETHER, the sign chosen so
+                # that the real R has a non-negative diagonal.  Hence Qf^T Qf = Q1^T Q1 = I and Qf Rf = Q1 R1 = real_expand(X) (every term of the
+                # products is unchanged; the dropped rows of R are zero), and the premise of the uniqueness lemma (A5: QR with positive diagonal is
+                # unique, so it is the embedding of the quaternion QR) holds on every shape m >= n - the square case included.
+                rc, lq = ctx.ghost.get("real_contract_args", []), ctx.ghost.get("lapack_qr")
+                okc = len(rc) == 2 and lq is not None and ctx.valid(sand(rc[0][2] == m, rc[0][3] == n, rc[1][2] == n, rc[1][3] == n)) is True
+                out.append(("contracts_the_thin_real_factors", okc))
+                if okc:
+                    Qf, Rf, (Q0, R0) = rc[0][1], rc[1][1], lq
+                    (ii,) = ix.fresh_indices(ctx, [4 * m], "qi")
+                    (kk, jj) = ix.fresh_indices(ctx, [4 * n, 4 * n], "rk")
+                    dkk = R0.at(kk, kk)
+                    sgn = ix.ite(dkk < 0, Fraction(-1), Fraction(1))
+                    out.append(("real_R_has_a_nonnegative_diagonal", Rf((kk, kk)) >= 0))
+                    out.append(("column_k_of_Q_and_row_k_of_R_are_flipped_together", sor(sand(dkk != 0, Qf((ii, kk)) == sgn * Q0.at(ii, kk), Rf((kk, jj)) == sgn * R0.at(kk, jj)),
+                                    # a zero pivot leaves the sign free, but the column / row itself is kept
+                                    sand(dkk == 0, sor(Qf((ii, kk)) == Q0.at(ii, kk), Qf((ii, kk)) == -Q0.at(ii, kk)), sor(Rf((kk, jj)) == R0.at(kk, jj), Rf((kk, jj)) == -R0.at(kk, jj))))))
+                    (k2, j2) = ix.fresh_indices(ctx, [4 * m, 4 * n], "dr")
+                    out.append(("rows_of_R_that_are_dropped_are_zero", sor(k2 < 4 * n, R0.at(k2, j2) == 0)))
             return out
         lib = Library("idx")
         lib.scipy.table["linalg"].table["qr"] = lapack_qr()
         lib.mods["scipy.linalg"].table["qr"] = lib.scipy.table["linalg"].table["qr"]
-        cl = ["returns_pair", "quat_dtype", "shape_Q", "shape_R"] + (["R_upper_triangular", "R_real_diagonal"] if case != "wide" else [])
+        cl = ["returns_pair", "quat_dtype", "shape_Q", "shape_R"] + (["R_upper_triangular", "R_real_diagonal", "contracts_the_thin_real_factors", "real_R_has_a_nonnegative_diagonal",
+                                                                     "column_k_of_Q_and_row_k_of_R_are_flipped_together", "rows_of_R_that_are_dropped_are_zero"] if case != "wide" else [])
         run_case(rep, P, QS + "qr_qua", case, setup, post, lib=lib, contracts=dict(contracts, **{QS + "qr_qua": k_qr_square}) if case == "wide" else contracts,
                  clauses=cl, replay=replay_qr, timeout_s=30)
     # ---- the wide branch at matrix level (free algebra): with the square factorisation of the leading block by its own contract (Q unitary - the
